@@ -115,7 +115,7 @@ pub fn install_panic_hook() {
         let loc = info.location().map(|l| format!("{}:{}", l.file(), l.line())).unwrap_or_default();
         LAST_PANIC.with(|l| *l.borrow_mut() = Some(loc.clone()));
         if std::env::var("JBV_LOUD").is_ok() {
-            crate::elog!("panic: {}", info);
+            eprintln!("panic: {}\n{}", info, std::backtrace::Backtrace::force_capture());
         }
     }));
 }
